@@ -3,6 +3,11 @@
 //! Case lines
 //!   c06.* rt <S|U> <L|B> <title> <k:m,k:m,...|~>      build through set_title/set_message, serialize, from_bytes
 //!   c06.* fa <S|U> <L|B> <data> <off:label,...|~>     TextArchive::from_archive on a hand-built BinArchive
+//!   c06.* hs <S|U> <L|B> <title> <k:m,..|~> <P|N> <op,op,..|~>
+//!                                                      build as rt; P: serialize + from_bytes first (a *parsed* archive),
+//!                                                      N: keep the built one; apply the history (t:<title> = set_title,
+//!                                                      d:<key> = delete_message, s:<key>:<msg> = set_message); then
+//!                                                      serialize and re-parse
 //!   c07.* rtd ... (as rt)                              same run as rt; prints `ok parsed dirty=<0|1>` | `ok unparsed` only
 //!   c07.* new <S|U> <L|B>                              stateful: first line creates the archive
 //!   c07.* set <k> <m> | del <k> | has <k> | get <k> | title <t> | setget <k>
@@ -13,6 +18,9 @@
 //!        (reser: the parsed archive serialised again, compared with `bytes`)
 //!        | `ok stored=.. bytes=<hex> parse-err <Class>` | `err <Class>` (serialize failed) | `panic`
 //!   fa : `ok title=<hex> entries=<k:v,..>` | `err <Class>` | `panic`
+//!   hs : `ok ctitle=<hex> centries=<k:v,..> bytes=<hex> parsed title=<hex> entries=<k:v,..>` (ctitle/centries =
+//!        get_title/get_entries just before the final serialize) | `ok ctitle=.. centries=.. bytes=.. parse-err <Class>`
+//!        | `ok ctitle=.. centries=.. ser-err <Class>` | `err0 <Class>` (the preparatory serialize/from_bytes failed)
 //!   c07: `ok r=<unit|true|false|none|some:<hex>> title=<hex> dirty=<0|1> entries=<k:v:g,..>` with
 //!        v the stored value and g = get_message(k).
 use crate::util::*;
@@ -133,6 +141,49 @@ fn run_rt(f: &[&str]) -> String {
     r.unwrap_or_else(|_| "panic".to_string())
 }
 
+fn run_hs(f: &[&str]) -> String {
+    let (fmt, endian) = (fmt_of(f[2]), endian_of(f[3]));
+    let title = unhexs(f[4]);
+    let entries: Vec<(String, String)> = parse_pairs(f[5]).into_iter().map(|(k, m)| (unhexs(&k), unhexs(&m))).collect();
+    let parsed_first = f[6] == "P";
+    let ops: Vec<Vec<String>> = if f[7] == "~" { Vec::new() } else { f[7].split(',').map(|o| o.split(':').map(|x| x.to_string()).collect()).collect() };
+    let r = no_panic(|| {
+        let mut t = TextArchive::new(fmt, endian);
+        t.set_title(title.clone());
+        for (k, m) in &entries {
+            t.set_message(k, m);
+        }
+        if parsed_first {
+            let b0 = match t.serialize() {
+                Ok(b) => b,
+                Err(e) => return format!("err0 {}", ta_class(&e)),
+            };
+            t = match TextArchive::from_bytes(&b0, fmt, endian) {
+                Ok(p) => p,
+                Err(e) => return format!("err0 {}", ta_class(&e)),
+            };
+        }
+        for o in &ops {
+            match o[0].as_str() {
+                "t" => t.set_title(unhexs(&o[1])),
+                "d" => t.delete_message(&unhexs(&o[1])),
+                "s" => t.set_message(&unhexs(&o[1]), &unhexs(&o[2])),
+                _ => return "bad-case".to_string(),
+            }
+        }
+        let head = format!("ok ctitle={} centries={}", hexs(t.get_title()), pairs(t.get_entries().iter()));
+        let bytes = match t.serialize() {
+            Ok(b) => b,
+            Err(e) => return format!("{} ser-err {}", head, ta_class(&e)),
+        };
+        match TextArchive::from_bytes(&bytes, fmt, endian) {
+            Ok(p) => format!("{} bytes={} parsed title={} entries={}", head, hex(&bytes), hexs(p.get_title()), pairs(p.get_entries().iter())),
+            Err(e) => format!("{} bytes={} parse-err {}", head, hex(&bytes), ta_class(&e)),
+        }
+    });
+    r.unwrap_or_else(|_| "panic".to_string())
+}
+
 fn run_fa(f: &[&str]) -> String {
     let (fmt, endian) = (fmt_of(f[2]), endian_of(f[3]));
     let data = unhex(f[4]);
@@ -226,6 +277,7 @@ pub fn run_line(st: &mut super::State, line: &str) -> String {
     } else {
         match f[1] {
             "rt" | "rtd" => run_rt(&f),
+            "hs" => run_hs(&f),
             "fa" => run_fa(&f),
             _ => "bad-case".to_string(),
         }
@@ -363,6 +415,117 @@ fn gen_c06(rng: &mut Rng, tier: &str, lines: &mut Vec<String>) {
             entries.push((k, m));
         }
         lines.push(rt_line(&mut n, f, e, &title, &entries));
+    }
+    // --- archives that went through a history before being serialised: parsed (`P`: from_bytes of a
+    // serialised archive) or built (`N`), then set_title / delete_message / set_message calls —
+    // including histories without any set_message, histories whose last calls are deletes / title
+    // changes, and histories that restore the original content
+    let hs_line = |n: &mut usize, f: &str, e: &str, title: &str, entries: &[(String, String)], src: &str, ops: &[String]| -> String {
+        let es: Vec<String> = entries.iter().map(|(k, m)| format!("{}:{}", hexs(k), hexs(m))).collect();
+        let l = format!(
+            "c06.{:06} hs {} {} {} {} {} {}",
+            *n,
+            f,
+            e,
+            hexs(title),
+            if es.is_empty() { "~".to_string() } else { es.join(",") },
+            src,
+            if ops.is_empty() { "~".to_string() } else { ops.join(",") }
+        );
+        *n += 1;
+        l
+    };
+    let abc = vec![(s("MID_A"), s("first")), (s("MID_B"), s("second")), (s("MID_C"), s("third"))];
+    for (f, e) in combos {
+        for src in ["P", "N"] {
+            let fixed: Vec<Vec<String>> = vec![
+                vec![],
+                vec![format!("t:{}", hexs("Renamed"))],
+                vec![format!("d:{}", hexs("MID_B"))],
+                vec![format!("d:{}", hexs("MID_A")), format!("d:{}", hexs("MID_B")), format!("d:{}", hexs("MID_C"))],
+                vec![format!("t:{}", hexs("")), format!("d:{}", hexs("MID_C"))],
+                vec![format!("d:{}", hexs("nokey"))],
+                vec![format!("t:{}", hexs("X")), format!("t:{}", hexs("Title"))],
+                vec![format!("d:{}", hexs("MID_C")), format!("s:{}:{}", hexs("MID_C"), hexs("third"))],
+                vec![format!("s:{}:{}", hexs("MID_B"), hexs("2nd")), format!("d:{}", hexs("MID_A")), format!("t:{}", hexs("T2"))],
+                vec![format!("s:{}:{}", hexs("MID_D"), hexs("")), format!("d:{}", hexs("MID_D"))],
+            ];
+            for ops in &fixed {
+                lines.push(hs_line(&mut n, f, e, "Title", &abc, src, ops));
+            }
+            lines.push(hs_line(&mut n, f, e, "Title", &[], src, &[format!("t:{}", hexs("Other"))]));
+        }
+    }
+    let count = if thorough { 30000 } else { 3000 };
+    for i in 0..count {
+        let (f, e) = *rng.pick(&combos);
+        let src = if i % 3 == 2 { "N" } else { "P" };
+        let tl = rng.range(0, 6) as usize;
+        let title = sjis_string(rng, tl);
+        let ne = rng.range(0, 4) as usize;
+        let keys = distinct_keys(rng, ne);
+        let mut entries = Vec::new();
+        for k in &keys {
+            let len = rng.range(0, 6) as usize;
+            entries.push((k.clone(), if f == "S" { sjis_string(rng, len) } else { uni_string(rng, len) }));
+        }
+        let class = rng.below(4); // 0: no set_message; 1: sets first, deletes / titles last; 2: mixed; 3: restore
+        let nops = rng.range(1, 4) as usize;
+        let mut ops: Vec<String> = Vec::new();
+        let some_key = |rng: &mut Rng| -> String {
+            if !keys.is_empty() && !rng.chance(1, 5) { rng.pick(&keys).clone() } else { sjis_string(rng, 2) }
+        };
+        let mk_set = |rng: &mut Rng, k: String| -> String {
+            let len = rng.range(0, 5) as usize;
+            format!("s:{}:{}", hexs(&k), hexs(&if f == "S" { sjis_string(rng, len) } else { uni_string(rng, len) }))
+        };
+        let mk_quiet = |rng: &mut Rng, k: String| -> String {
+            if rng.chance(1, 2) {
+                let l = rng.range(0, 5) as usize;
+                format!("t:{}", hexs(&sjis_string(rng, l)))
+            } else {
+                format!("d:{}", hexs(&k))
+            }
+        };
+        match class {
+            0 => {
+                for _ in 0..nops {
+                    let k = some_key(rng);
+                    ops.push(mk_quiet(rng, k));
+                }
+            }
+            1 => {
+                let k = some_key(rng);
+                ops.push(mk_set(rng, k));
+                for _ in 0..nops {
+                    let k = some_key(rng);
+                    ops.push(mk_quiet(rng, k));
+                }
+            }
+            2 => {
+                for _ in 0..nops {
+                    let k = some_key(rng);
+                    if rng.chance(1, 2) {
+                        ops.push(mk_set(rng, k));
+                    } else {
+                        ops.push(mk_quiet(rng, k));
+                    }
+                }
+            }
+            _ => {
+                // change, then restore: title back to the original, a deleted last key set again
+                let l = rng.range(0, 5) as usize;
+                ops.push(format!("t:{}", hexs(&sjis_string(rng, l))));
+                if let Some((k, m)) = entries.last() {
+                    if rng.chance(1, 2) {
+                        ops.push(format!("d:{}", hexs(k)));
+                        ops.push(format!("s:{}:{}", hexs(k), hexs(m)));
+                    }
+                }
+                ops.push(format!("t:{}", hexs(&title)));
+            }
+        }
+        lines.push(hs_line(&mut n, f, e, &title, &entries, src, &ops));
     }
     // --- from_archive on hand-built bin archives (reader model, not produced by the writer)
     let count = if thorough { 40000 } else { 6000 };
@@ -572,10 +735,9 @@ fn gen_c07(rng: &mut Rng, tier: &str, lines: &mut Vec<String>) {
 }
 
 /// Which property's sub-stream to generate.  The family serves two properties; the orchestrator
-/// passes no property id to `gen`, so it is taken from `VERIF_PROP` when set, else from the output
-/// path the orchestrator uses (`work/<ID>/...`); with neither, both sub-streams are generated.
+/// exports the property id as `VERIF_PROP`; without it both sub-streams are generated.
 fn wanted() -> (bool, bool) {
-    let hint = std::env::var("VERIF_PROP").ok().or_else(|| std::env::args().nth(5)).unwrap_or_default();
+    let hint = std::env::var("VERIF_PROP").unwrap_or_default();
     let c06 = hint.contains("C06");
     let c07 = hint.contains("C07");
     if c06 == c07 {
